@@ -30,6 +30,9 @@ DEVS = {
     "crash.cookie_attribute_without_cookie": (["Service", "CookieSecure"], 2, 1, "tiny"),
     "crash.mapped_attribute_empty_dsl": (["Service", "Metadata"], 2, 1, "tiny"),
     "crash.unknown_view_on_result_type": (["ResultType", "View"], 2, 0, "tiny"),
+    "crash.extend_collection": (["ResultType", "Extend"], 2, 0, "small"),
+    "crash.error_response_headers_undeclared_error": (["Service", "HTTP", "Response", "Header"], 4, 0, "tiny"),
+    "crash.grpc_message_empty_dsl": (["Service", "Message"], 2, 1, "tiny"),
     "accept.request_mapping": (["Service", "Method", "HTTP", "Param"], 4, 0, "tiny"),
     "accept.response_mapping": (["Service", "Method", "HTTP", "Response", "Header"], 5, 0, "tiny", "simulate"),
     "accept.grpc_mapping": (["Service", "Method", "GRPC", "Message", "Attribute"], 5, 0, "tiny"),
